@@ -501,7 +501,7 @@ func (w *World) twinOf(h *SegH) segment.Segment {
 
 func concurrentReaders(r *RunCtx) {
 	c := r.ch
-	w := newWorldBadSyn(r, c.Choose(3, "cfg.syn") != 0)
+	w := newWorldBadSyn(r, c.Choose(3, "cfg.syn") != 0, false)
 	defer w.CloseAll()
 	w.populate(1)
 	// the shared segments: at most 3, fresh instances whose caches are cold
